@@ -122,25 +122,27 @@ def term (ps1 : Bytes) (o : OpObs) (r : Ref) (want : Nat → List Char → TRes)
           && o.res == want st (text (rest.take (rest.length - ps1.length)))
       then .ok { r with since := r.since ++ rest, pend := [], phase := .terminated } else .bad
 
+/-- `send` / `sendline` with the bytes that go out (`payload` carries the CR of `sendline`) -/
+def sendLike (ps1 bl : Bytes) (payload : Bytes) (rb : Bool) (o : OpObs) (r : Ref) : V Ref :=
+  if payload.isEmpty then (if o.res == .unit && o.pieces.isEmpty then .ok r else .bad)
+  else if r.phase != .running then (if o.res == .err .ended && o.pieces.isEmpty then .ok r else .bad)
+  else if forbidden bl payload then (if o.res == .err .illegal && o.pieces.isEmpty then .ok r else .bad)
+  else if !typable payload then .outside
+  else if rb && !r.pend.isEmpty then .outside       -- read-back is only specified when nothing is pending
+  else match r.typed ps1 payload with
+    | .ok r' =>
+      if !rb then (if o.res == .unit && o.pieces.isEmpty then .ok r' else .bad)
+      else
+        let k := o.pieces.sum
+        if o.res == .unit && k == Tty.readBackLen payload && k ≤ r'.pend.length
+        then .ok (r'.consume k) else .bad
+    | v => v
+
 /-- one call of the test body -/
 def step (ps1 bl : Bytes) (op : TOp) (o : OpObs) (r : Ref) : V Ref :=
-  let sendLike (payload : Bytes) (rb : Bool) : V Ref :=
-    if payload.isEmpty then (if o.res == .unit && o.pieces.isEmpty then .ok r else .bad)
-    else if r.phase != .running then (if o.res == .err .ended && o.pieces.isEmpty then .ok r else .bad)
-    else if forbidden bl payload then (if o.res == .err .illegal && o.pieces.isEmpty then .ok r else .bad)
-    else if !typable payload then .outside
-    else if rb && !r.pend.isEmpty then .outside       -- read-back is only specified when nothing is pending
-    else match r.typed ps1 payload with
-      | .ok r' =>
-        if !rb then (if o.res == .unit && o.pieces.isEmpty then .ok r' else .bad)
-        else
-          let k := o.pieces.sum
-          if o.res == .unit && k == Tty.readBackLen payload && k ≤ r'.pend.length
-          then .ok (r'.consume k) else .bad
-      | v => v
   match op with
-  | .send b rb => sendLike b rb
-  | .sendline b rb => sendLike (b ++ [Tty.CR]) rb
+  | .send b rb => r.sendLike ps1 bl b rb o
+  | .sendline b rb => r.sendLike ps1 bl (b ++ [Tty.CR]) rb o
   | .sendcontrol n =>
     if r.phase != .running then (if o.res == .err .ended && o.pieces.isEmpty then .ok r else .bad)
     else if n != 3 && n != 4 then .outside
